@@ -30,6 +30,8 @@ RowC06 == Is("c06") => /\ Ok /\ R.out.destructed = R.out.expected /\ R.out.over 
                        /\ R.out.advances <= LatencyBound(R.out.nodes)
 RowShape == Is("shapes") => /\ Ok /\ \A i \in 1..Len(R.out.ran) : R.out.ran[i] = 1 /\ R.out.bad[i] = 0
 RowC20 == Is("c20") => /\ Ok /\ R.out.joined = 1 /\ R.out.drops = R.out.expected
+                       /\ R.out.reader_ok = 1          \* what a late destructor unlinked outlived a reader's critical section
+                       /\ R.out.watched_dropped = 1    \* and was reclaimed exactly once afterwards
 V(name, ok) == ok \/ PrintT(<<"VIOL", name, 0, l>>)
 Report == V("RowC07", RowC07) /\ V("RowC06", RowC06) /\ V("RowShape", RowShape) /\ V("RowC20", RowC20)
 Accepted == (TLCGet("stats").diameter = Len(Rec) /\ PrintT(<<"ACCEPTED", Len(Rec)>>))
